@@ -346,7 +346,7 @@ static void run_region(void (*fn)(void*), void* data, int req, bool exact, const
         t->inline_depth++;
         size_t ws_mark = t->inline_ws.size();
         if (pre_ws) {
-            Thread::InlineWS w{pre_ws->next, pre_ws->end, pre_ws->incr, pre_ws->chunk, 1, 0};
+            Thread::InlineWS w{pre_ws->next, pre_ws->end, pre_ws->incr, pre_ws->chunk, pre_ws->sections_next, pre_ws->sections_n};
             t->inline_ws.push_back(w);
         }
         {
@@ -798,8 +798,11 @@ void GOMP_sections_end(void) { loop_end(true); }
 void GOMP_sections_end_nowait(void) { loop_end(false); }
 void GOMP_parallel_sections(void (*fn)(void*), void* data, unsigned nt, unsigned count, unsigned /*flags*/)
 {
-    (void)count;
-    run_region(fn, data, nt ? (int)nt : G.icv_nthreads, false, nullptr);
+    WorkShare w;
+    w.kind          = 3;
+    w.sections_next = 1;
+    w.sections_n    = (int)count;
+    run_region(fn, data, nt ? (int)nt : G.icv_nthreads, false, &w);
 }
 
 /* critical / atomic / ordered */
